@@ -424,7 +424,10 @@ def r13_5(ctx: Ctx):
     co = ctx.ix.cls('ConsoleOutputer')
     pf = fco.lookup('printFinalResult')
     pr = co.lookup('printResult')
-    ex = ctx.explorer()
+    # helpers of the console module that prepare the reported quantities (a value class built from the solution) are
+    # looked through; the printing routines themselves stay events
+    ex = ctx.explorer(inline=lambda f, st: f.module is pf.module and f.name != '__init__' and
+                      not f.name.startswith('print'))
     sol = var(pf.param_names[1])
     bt0 = C.sub(attr(sol, 'bestTrials'), RF.const(0))
     want = {
@@ -440,7 +443,7 @@ def r13_5(ctx: Ctx):
         for e in p.events:
             if e.kind == 'call' and pr in e.d['callees']:
                 n += 1
-                names = pr.param_names[1:]
+                names = pr.param_names if (pr.is_static or pr.cls is None) else pr.param_names[1:]
                 bound = dict(zip(names, e.d['args']))
                 bound.update(e.d['kwargs'])
                 for pname, exp in want.items():
